@@ -702,7 +702,7 @@ func TestVerifC12(t *testing.T) {
 			if o.Kind == "Remove" && !strings.HasSuffix(o.Args[0], ".tmp") {
 				refDel++
 			}
-			if o.Kind == "Rename" && strings.Contains(o.Args[1], "compound-") {
+			if o.Kind == "Rename" && len(o.Args) > 1 && strings.Contains(o.Args[1], "compound-") {
 				refDel++
 			}
 		}
@@ -781,7 +781,7 @@ func TestVerifC12(t *testing.T) {
 				for _, o := range rr.log {
 					if o.Result == "injected" || o.Result == "badwrite" {
 						failed = o.Kind
-						if o.Kind == "Rename" && strings.Contains(o.Args[1], "compound-") {
+						if o.Kind == "Rename" && len(o.Args) > 1 && strings.Contains(o.Args[1], "compound-") {
 							failed = "Rename(SetTombstone)"
 						}
 					}
@@ -802,7 +802,7 @@ func TestVerifC12(t *testing.T) {
 				}
 				// ---- crash prefixes of the FAULTY run: the fault at j, then a kill before a later operation. Only faults of the
 				// install phase (renames / removals / SetTombstone steps) change what later operations do.
-				if m != "fail" || !(failed == "Rename" || failed == "Rename(SetTombstone)" || (failed == "Remove" && j < len(rr.log) && !strings.HasSuffix(rr.log[j].Args[0], ".tmp")) || (failed == "CreateTemp" && j < len(rr.log) && strings.Contains(rr.log[j].Args[1], "compound-"))) {
+				if m != "fail" || !(failed == "Rename" || failed == "Rename(SetTombstone)" || (failed == "Remove" && j < len(rr.log) && len(rr.log[j].Args) > 0 && !strings.HasSuffix(rr.log[j].Args[0], ".tmp")) || (failed == "CreateTemp" && j < len(rr.log) && strings.Contains(strings.Join(rr.log[j].Args, " "), "compound-"))) {
 					continue
 				}
 				Lf := len(rr.log)
